@@ -11,3 +11,6 @@ pub use gaussian_nb::GaussianNb;
 pub use hyperparams::{GaussianNbParams, GaussianNbValidParams};
 pub use hyperparams::{MultinomialNbParams, MultinomialNbValidParams};
 pub use multinomial_nb::MultinomialNb;
+
+#[cfg(linfa_verif)]
+pub mod verif_hooks_c20;
